@@ -160,6 +160,7 @@ BREAK = [
     ("leaf-function-weight-zero", ["C07"], F, "            self.decomposition_dict = {self: 1}\n            self.counter = Function.counter", "            self.decomposition_dict = {self: 0}\n            self.counter = Function.counter", "R-LEAFREG"),
     ("logdet-prefix-length", ["C14"], P, "niter = int(dimension_reduction_heuristic[6:])", "niter = int(dimension_reduction_heuristic[7:])", "R-SOLVEPROG"),
     ("strict-comparison-reflected", ["C06"], EX, '        warnings.warn("Strict constraints will lead to the same solution as under soft constraints")\n        return self.__ge__(other=other)', "        return other.__lt__(self)", "R-OPSEM"),
+    ("callback-as-lambda-wrong-gradient", ["C03", "C04"], "PEPit/functions/convex_function.py", "set_class_constraint_i_j=self.set_convexity_constraint_i_j,", "set_class_constraint_i_j=lambda xi, gi, fi, xj, gj, fj: fi - fj >= gi * (xi - xj),", "R-FORMULA"),
     # ---- tables (C17)
     ("table-columns-swapped", ["C17"], F, "df = pd.DataFrame(table_of_constraints, columns=point_names_2, index=point_names_1)", "df = pd.DataFrame(table_of_constraints, columns=point_names_1, index=point_names_2)", "R-ALIGN"),
     ("skip-cell-missing", ["C17"], F, "                    row_of_constraints.append(0)\n", "                    pass\n", "R-ALIGN"),
@@ -169,6 +170,8 @@ BREAK = [
 
 # behaviour-preserving edits: (id, file, old, new) -- every check must stay silent
 BENIGN = [
+    ("callback-as-lambda", "PEPit/functions/convex_function.py", "set_class_constraint_i_j=self.set_convexity_constraint_i_j,", "set_class_constraint_i_j=lambda xi, gi, fi, xj, gj, fj: fi - fj >= gj * (xi - xj),"),
+    ("second-list-is-a-copy", "PEPit/functions/convex_function.py", "                                                      list_of_points_2=self.list_of_points,", "                                                      list_of_points_2=list(self.list_of_points),"),
     ("cholesky-transposed-fast-path", P, "        points_values = np.linalg.qr((np.sqrt(eig_val) * eig_vec).T, mode='r')", "        if np.min(eig_val) > np.max(eig_val) / 1e3:\n            points_values = np.linalg.cholesky(G_value).T\n        else:\n            points_values = np.linalg.qr((np.sqrt(eig_val) * eig_vec).T, mode='r')"),
     ("factor-via-diag", P, "np.linalg.qr((np.sqrt(eig_val) * eig_vec).T, mode='r')", "np.linalg.qr(np.diag(np.sqrt(eig_val)) @ eig_vec.T, mode='r')"),
     ("clip-always", P, "        if np.min(eig_val) < 0:\n            if verbose:", "        if True:\n            if verbose and np.min(eig_val) < 0:"),
